@@ -435,7 +435,7 @@ def main(tier, seed):
     # number of Hypothesis examples drawn. 7 of 8 chunks use the generator's "fast" mode (one Hypothesis draw seeds all
     # choices of a file: independent examples), 1 of 8 the pure mode (every choice a Hypothesis draw; the engine's
     # mutation step then yields families of similar files, repeated texts are merged)
-    n_schemas, nopts = (2800, 3) if tier == "quick" else (10000, 6)
+    n_schemas, nopts = (2800, 3) if tier == "quick" else (14000, 6)
     if os.environ.get("C07_N"):
         n_schemas = int(os.environ["C07_N"])
     nchunks = 32 if tier == "quick" else 96
